@@ -1232,3 +1232,9 @@ def probe_known(ctx, finding):
     cmds = finding["replay"]["commands"]
     fs, _ = ftp_failures(cmds)
     return any(x["signature"] == finding["signature"] for x in fs)
+
+
+# the long-lived process: a Server object with a past run (props/history.py)
+from props import history as _history  # noqa: E402
+
+correspondence, search, replay = _history.attach(PID, correspondence, search, replay, pasts=[])
